@@ -49,6 +49,7 @@ DEFAULT_PROFILE = dict(
     near_level_pilots=0.0,        # scripted party: share of finite-rate pilots placed within the EVSE's 1e-3 A tolerance of a level
     reconfig=0.0,                 # probability that the operator changes constraint limits mid-run (environment fault)
     refill=0.15,                  # probability that later events are added to the simulator's queue only after run() returned (run() is then called again)
+    aware_start=0.0,              # probability that the simulation start is a pytz-aware instant a few periods before a DST transition of its zone
     event_subclass=0.1,           # probability that the world's plug-in / recompute events are instances of user subclasses of the built-in event types
 )
 
@@ -191,6 +192,16 @@ def gen_world(rs: int, P: dict) -> dict:
         "shuffle_events": rsim.randint(0, 10 ** 6),
     }
 
+    ra = sub(rs, "aware_start")
+    if P.get("aware_start", 0) and ra.random() < P["aware_start"]:
+        zone, (ty, tmo, td, th) = ra.choice([("America/Los_Angeles", (2019, 3, 10, 2)), ("America/Los_Angeles", (2019, 11, 3, 1)),
+                                             ("Europe/London", (2019, 3, 31, 1)), ("Europe/London", (2019, 10, 27, 1)),
+                                             ("Australia/Sydney", (2020, 4, 5, 2)), ("UTC", (2020, 6, 1, 0)), ("Asia/Kolkata", (2020, 6, 1, 0))])
+        import datetime as _dt
+        st_ = _dt.datetime(ty, tmo, td, th) - _dt.timedelta(minutes=int(period * ra.randint(0, max(1, T))) + ra.choice([0, 0, 7, 30]))
+        sim["start"] = [st_.year, st_.month, st_.day, st_.hour, st_.minute]
+        sim["start_tz"] = zone
+
     # sessions: per-station chains of non-overlapping stays
     sessions = []
     sid_mode = wchoice(r, P["sid_mode"])
@@ -277,7 +288,7 @@ def gen_world(rs: int, P: dict) -> dict:
         party["sort"] = rp.choice(P["sorts"])
         party["estimator"] = wchoice(rp, P["estimator"])
         party["uninterrupted"] = rp.random() < P["uninterrupted"]
-        party["max_recompute"] = 1
+        party["max_recompute"] = rp.choice(P["sorted_max_recompute"]) if P.get("sorted_max_recompute") else 1
         if party_kind == "rr":
             party["continuous_inc"] = rp.choice(P["rr_inc"])
     if party_kind == "uncontrolled":
